@@ -1192,7 +1192,9 @@ func runFD08(p *Prog, r *RuleRun) {
 		}
 		return false
 	}
-	blames := func(fn *ssa.Function, ins ssa.Instruction) bool {
+	depthBlame := 0
+	var blames func(fn *ssa.Function, ins ssa.Instruction) bool
+	blames = func(fn *ssa.Function, ins ssa.Instruction) bool {
 		switch x := ins.(type) {
 		case *ssa.Store:
 			fv := fieldOfAddr(x.Addr)
@@ -1201,6 +1203,19 @@ func runFD08(p *Prog, r *RuleRun) {
 			for _, res := range x.Results {
 				if isMismatchVal(res) && resultStoredToErr(fn) {
 					return true
+				}
+			}
+		case *ssa.Call:
+			// a local closure that does the blaming (mismatch := func(...) { report.Err = ErrChecksumMismatch(...) })
+			if callee := x.Call.StaticCallee(); callee != nil && callee.Parent() == fn && depthBlame < 2 {
+				depthBlame++
+				defer func() { depthBlame-- }()
+				for _, cb := range callee.Blocks {
+					for _, ci := range cb.Instrs {
+						if blames(callee, ci) {
+							return true
+						}
+					}
 				}
 			}
 		}
